@@ -433,7 +433,8 @@ def check_emit(prog, r):
 
 def check_inbound(prog, r):
     rs = prog.one(r"rustybgpd::event::PeerSession::run_select")
-    fv = view(prog, prog.body_key(rs))
+    from ..util import body_holding
+    fv = body_holding(prog, rs, r"rustybgpd::event::PeerSession::rx_msg")
     r.analysed(prog.name(rs))
     rx = fv.calls(re.compile(r"rustybgpd::event::PeerSession::rx_msg"))
     lo = fv.calls(re.compile(r"rustybgpd::event::export::is_as_loop"))
